@@ -6,6 +6,17 @@ const v2pkg = "app/core/hydra/swamp/chronicler/v2"
 
 var Checks = []CheckDef{
 	{
+		ID: "C07", Title: "Ordered index reads return the correctly sorted, ranged page",
+		Claim:   "bounded symbolic execution of the real swamp/beacon code on an in-memory swamp: 2-3 records whose sort attribute (key / creation / update / expiry time / int64 value) is symbolic (the solver decides every relative order, ties and zero = attribute absent), the index optionally built before one mutation (insert after the build, update that moves the sort value, delete), then an ordered read in either direction with symbolic offset, limit and time window (each bound absent or symbolic): the page equals filter(attribute present, from <= ts < to) -> sort -> drop offset -> take limit of a reference model, compared tie-insensitively, with no duplicates",
+		Trusted: "sort.Slice is an insertion sort calling the real less closure; background goroutines at lowest priority; clock symbolic",
+		Harnesses: []HarnessDef{
+			{Pkg: "app/core/hydra/swamp", Func: "VerifC07Index", Quick: map[string]int{"maxPage": 2}, Thorough: map[string]int{"maxPage": 3}, Covers: []string{"end"}},
+		},
+		Assumptions: []string{"attribute values in -2..3, offset/limit in 0..maxPage (relative orders and boundary coincidences are all reachable)", "offset >= 0 (negative offsets are malformed requests, C26)"},
+		Stubs:       []string{"sort.Slice/Sort = insertion sort with the real comparison", "time = symbolic clock"},
+		Outside:     []string{"more than 3 records", "value indexes other than int64", "gateway-level include/exclude key filters"},
+	},
+	{
 		ID: "C30", Title: "Expiry semantics are consistent across every read and claim path",
 		Claim:   "bounded symbolic execution of the real swamp/beacon/treasure code on an in-memory swamp with one record whose expiry e is a fully symbolic UnixNano (zero, negative/pre-epoch, past, future) and a symbolic clock: e is set through Set, patch-meta set, patch-meta slide (from a second symbolic expiry) or patch-meta clear, with the expiry index built before (hot path) or after (cold build) the write; the stored value, IsExpired, membership in the expiry-ordered index, the expired-shift claim and the expired-patch claim all agree with `e != 0 && e < now`",
 		Trusted: "time.Now is a symbolic non-decreasing clock (verdicts are compared against the clock readings taken before and after); background goroutines of the swamp (close listener) run at lowest priority; gateway wire conversion and reload through gob are covered by C05/C06 harnesses, not here",
